@@ -32,13 +32,14 @@ import (
 func init() { register("loops", suiteLoops) }
 
 type loopSpec struct {
-	Name   string
-	Start  string // expression over a, b: literal or parameter
-	Limit  string
-	Cmp    string
-	Step   int
-	Form   string // top | breaktest | bottom | top-with-break | top-with-continue | cond-update
-	Nested bool   // wrap in an outer counted loop 0..2
+	Name    string
+	Start   string // expression over a, b: literal or parameter
+	Limit   string
+	Cmp     string
+	Step    int
+	Form    string // top | breaktest | bottom | top-with-break | top-with-continue | cond-update
+	Nested  bool   // wrap in an outer counted loop 0..2
+	Sibling bool   // an unrelated counted loop with the same start and step runs first
 }
 
 func (l loopSpec) stepStmt() string {
@@ -56,6 +57,11 @@ func (l loopSpec) sources() (plain, twin string) {
 	fmt.Fprintf(&pl, "func %s(a int, b int) int {\n\tt := 0\n", l.Name)
 	fmt.Fprintf(&tw, "func %s(a int, b int) (int, []int) {\n\tt := 0\n\tbodies := 0\n\tvar hdr []int\n\tguard := 0\n", l.Name)
 	ind := "\t"
+	if l.Sibling {
+		sib := "\tfor j := 0; j < 3; j++ {\n\t\tt += j * 2\n\t}\n"
+		pl.WriteString(sib)
+		tw.WriteString(sib)
+	}
 	if l.Nested {
 		pl.WriteString("\tfor o := 0; o < 2; o++ {\n")
 		tw.WriteString("\tfor o := 0; o < 2; o++ {\n\tif o == 1 { break }\n") // record the first activation only
@@ -125,6 +131,7 @@ func genLoopSpec(r *Rng, idx int) loopSpec {
 	}
 	l.Form = pick(r, []string{"top", "top", "top", "breaktest", "breaktest", "bottom", "top-with-break", "top-with-continue", "cond-update"})
 	l.Nested = r.Chance(25)
+	l.Sibling = r.Chance(20)
 	return l
 }
 
@@ -184,7 +191,7 @@ func evalSCEV(s loop.SCEV, env map[ssa.Value]*big.Int) (*big.Int, bool) {
 }
 
 func suiteLoops(c *Ctx) error {
-	c.Res.Rule = "generated counted loops (up/down; tests < <= > >= !=; steps 1,2,3,5 and negative; constant and parameter bounds; forms: top-tested, break-tested `for { if !(test) { break }; …}`, bottom-tested, with an extra break, with continue, with a conditionally doubled update; optionally nested in an outer loop) x 12 argument vectors; the real loop analysis of the plain function vs a natively executed instrumented twin recording the header values and body count; checked only where the analysis makes a claim (basic induction variable / evaluable trip count); non-trivial = the analysis made at least one claim and the loop ran at least once; distinct by (loop, arguments)"
+	c.Res.Rule = "generated counted loops (up/down; tests < <= > >= !=; steps 1,2,3,5 and negative; constant and parameter bounds; forms: top-tested, break-tested `for { if !(test) { break }; …}`, bottom-tested, with an extra break, with continue, with a conditionally doubled update; optionally nested in an outer loop, optionally after a sibling loop with the same start and step) x 12 argument vectors; the real loop analysis of the plain function vs a natively executed instrumented twin recording the header values and body count; checked only where the analysis makes a claim (basic induction variable / evaluable trip count); non-trivial = the analysis made at least one claim and the loop ran at least once; distinct by (loop, arguments)"
 	n := c.N
 	if n == 0 {
 		n = 120
